@@ -318,3 +318,141 @@ func c16UnrepresentableNames(p *Prog) *RuleResult {
 	r.Floor(2)
 	return r
 }
+
+// C16/R9 a separator that was consumed is followed by an emptiness check.
+//
+// parseGradient walks a token slice: `tokens = tokens[1:]` after each recognised token. After a
+// comma, something has to follow (a colour stop after a stop, a colour stop after a midpoint); the
+// later stages index the stop list assuming so. Rule (sibling agreement inside one loop): after
+// every slice advance that consumes a token tested to be a comma, every path to the next loop
+// iteration passes a test of len() of the advanced slice against zero.
+func c16SeparatorFollowed(p *Prog) *RuleResult {
+	r := NewRule("C16/R9 separator-followed", "in parseGradient every comma that is consumed is followed by a check that tokens remain, before the next colour stop is parsed or the loop ends")
+	fn := p.FindFunc("css_parser.parseGradient")
+	lp := p.ByPath[modPath+"/internal/css_lexer"]
+	if !r.Anchor("css_parser.parseGradient", fn != nil) || !r.Anchor("package css_lexer", lp != nil) {
+		return r
+	}
+	comma, ok := constsOfType(lp.Types, "T")["TComma"]
+	if !r.Anchor("css_lexer.TComma", ok) {
+		return r
+	}
+	loops := naturalLoops(fn)
+	n := 0
+	for _, b := range fn.Blocks {
+		if len(b.Instrs) == 0 {
+			continue
+		}
+		ifi, ok := b.Instrs[len(b.Instrs)-1].(*ssa.If)
+		if !ok {
+			continue
+		}
+		bo, ok := ifi.Cond.(*ssa.BinOp)
+		if !ok || (bo.Op != token.EQL && bo.Op != token.NEQ) {
+			continue
+		}
+		if cv, ok := constInt(bo.Y); !ok || cv != comma {
+			continue
+		}
+		if _, name, ok := loadedField(bo.X); !ok || name != "Kind" {
+			continue
+		}
+		isComma := b.Succs[0]
+		if bo.Op == token.NEQ {
+			isComma = b.Succs[1]
+		}
+		// innermost loop
+		var header *ssa.BasicBlock
+		for h, body := range loops {
+			if body[b] && (header == nil || len(body) < len(loops[header])) {
+				header = h
+			}
+		}
+		if header == nil {
+			continue
+		}
+		// the advance: first Slice with low bound 1 on the comma path
+		var adv *ssa.Slice
+		var advBlock *ssa.BasicBlock
+		for _, in := range isComma.Instrs {
+			if sl, ok := in.(*ssa.Slice); ok && adv == nil {
+				if lv, ok := constInt(sl.Low); ok && lv == 1 {
+					adv, advBlock = sl, isComma
+				}
+			}
+		}
+		if adv == nil {
+			continue
+		}
+		n++
+		r.Instances++
+		key := fmt.Sprintf("parseGradient comma #%d", n)
+		if dumpAll {
+			fmt.Printf("  comma check at %s, advance at %s (block %d)\n", p.Pos(bo.Pos()), p.Pos(adv.Pos()), advBlock.Index)
+		}
+		// values that carry the advanced slice
+		carries := map[ssa.Value]bool{adv: true}
+		for changed := true; changed; {
+			changed = false
+			eachInstr(fn, func(_ *ssa.BasicBlock, in ssa.Instruction) {
+				if ph, ok := in.(*ssa.Phi); ok && !carries[ph] {
+					for _, e := range ph.Edges {
+						if carries[e] {
+							carries[ph] = true
+							changed = true
+						}
+					}
+				}
+			})
+		}
+		lenTest := func(x *ssa.BasicBlock) bool {
+			if len(x.Instrs) == 0 {
+				return false
+			}
+			i2, ok := x.Instrs[len(x.Instrs)-1].(*ssa.If)
+			if !ok {
+				return false
+			}
+			b2, ok := i2.Cond.(*ssa.BinOp)
+			if !ok {
+				return false
+			}
+			isLen := false
+			for _, side := range []ssa.Value{b2.X, b2.Y} {
+				if c, ok := side.(*ssa.Call); ok {
+					if bi, ok := c.Call.Value.(*ssa.Builtin); ok && bi.Name() == "len" && len(c.Call.Args) == 1 && carries[c.Call.Args[0]] {
+						isLen = true
+					}
+				}
+			}
+			if !isLen {
+				return false
+			}
+			// one of the two edges must give up: a return whose success result is the constant false
+			for _, s := range x.Succs {
+				if len(s.Instrs) > 0 {
+					if ret, ok := s.Instrs[len(s.Instrs)-1].(*ssa.Return); ok && len(s.Instrs) <= 2 {
+						for _, rv := range ret.Results {
+							if isConstBool(rv, false) {
+								return true
+							}
+						}
+					}
+				}
+			}
+			return false
+		}
+		if lenTest(advBlock) {
+			r.OK(key, true, "the advanced slice is tested for emptiness in the same block")
+			continue
+		}
+		path, escapes := reachesExitAvoidingEdges(advBlock, func(x *ssa.BasicBlock) bool { return x == header }, func(x *ssa.BasicBlock) bool { return x != advBlock && lenTest(x) }, func(*ssa.BasicBlock, int) bool { return false })
+		if escapes {
+			r.Fail(key, p.Pos(adv.Pos()), fmt.Sprintf("a comma is consumed and the loop can continue (blocks %v) without checking that tokens remain: a gradient that ends right after this comma is accepted, and the stages that follow index past the end of the colour-stop list", blockIdx(path)))
+		} else {
+			r.OK(key, true, "every path to the next iteration tests the advanced slice for emptiness")
+		}
+	}
+	r.Anchor("comma checks in the colour-stop loop", n >= 2)
+	return r
+}
